@@ -167,7 +167,8 @@ func c02Oracle(bus *EventBus, ops []*c02Op) {
 			}
 		}
 		a := answered(r.id)
-		if !r.reject {
+		silent := r.reject || (r.odd && r.id%2 != 99%2) // its filter does not let the probe through
+		if !silent {
 			if mustGone {
 				vAssert(a == 0, "removed-registration-is-gone")
 			}
